@@ -269,7 +269,8 @@ PROPS["C07"] = dict(
 
 PROPS["C12"] = dict(
     env={"VF_SHRINKTIME": "40s"},
-    pkg="c12", race=True, level="exploration",
+    pkg="c12", race=True, level="exploration", prepare="exec_projects",
+    projects_quick=[("core", ["v0"])], projects_thorough=[("core", ["v0", "w2"])],
     quick=dict(shards=8, timeout=900), thorough=dict(shards=16, timeout=3000),
     claim="property-based testing of the SSE and multipart/mixed transports over a real TCP connection against a scripted executable "
           "schema: rapid draws payload scripts (1-12 payloads whose strings contain newlines, 'data:', ': ping', the boundary text, 5 kB "
